@@ -91,6 +91,26 @@ type c20Case struct {
 	// XDev: run the child with TMPDIR on another file system than the assets directory (when one is
 	// available), so that a store that stages its temporary file in os.TempDir() cannot rename it
 	XDev bool `json:"xdev,omitempty"`
+	// Conc (sub-check "concurrent"): instead of Ops, these actors store concurrently, one goroutine each
+	Conc []c20ConcActor `json:"conc,omitempty"`
+}
+
+// c20ConcActor stores whole configuration #index (c20Conf(index, KB)) with SetClientConf.
+type c20ConcActor struct {
+	KB      int  `json:"kb,omitempty"`       // size of its configuration
+	DelayUs int  `json:"delay_us,omitempty"` // it starts this long after the common start signal
+	RmTemp  bool `json:"rm_temp,omitempty"`  // fault: its (large) temporary file is deleted while being written, so its rename fails
+}
+
+// c20ConcObs is what the child reports once all actors have returned.
+type c20ConcObs struct {
+	Errs    []string `json:"errs"`     // per actor, "" = the store reported success
+	StartNs []int64  `json:"start_ns"` // per actor: call and return, relative to the start signal
+	EndNs   []int64  `json:"end_ns"`
+	Removed int      `json:"removed"` // temporary files deleted by the fault
+	Disk    string   `json:"disk"`
+	Mem     string   `json:"mem"`
+	Harness string   `json:"harness,omitempty"`
 }
 
 // ---- content: a deterministic function of the index ---------------------------------------------
@@ -413,6 +433,11 @@ func c20ChildMain() {
 	if err != nil || a == nil {
 		die("AssetsSetDir(%s): %v", dir, err)
 	}
+	if len(c.Conc) > 0 {
+		c20ChildConcurrent(a, c, dir, obsDir, say)
+		say("X")
+		os.Exit(0)
+	}
 	args := make([]any, len(c.Ops))
 	for i, op := range c.Ops {
 		args[i] = c20Arg(i, op)
@@ -619,6 +644,7 @@ type c20Result struct {
 	dir        string
 	obsDir     string
 	xdev       bool // the child ran with TMPDIR on another file system than dir
+	conc       *c20ConcObs
 }
 
 // c20Exec seeds a fresh directory under base, runs the child on c and returns what it announced.
@@ -691,6 +717,11 @@ func c20Exec(c c20Case, base string, observe bool) (*c20Result, error) {
 			res.finished = true
 		case strings.HasPrefix(line, "E "):
 			res.childErr = line[2:]
+		case strings.HasPrefix(line, "C "):
+			res.conc = &c20ConcObs{}
+			if err := json.Unmarshal([]byte(line[2:]), res.conc); err != nil {
+				res.childErr = "bad concurrent-observation line: " + err.Error()
+			}
 		case strings.HasPrefix(line, "S "):
 			i, _ := strconv.Atoi(line[2:])
 			res.lastStart = i
@@ -1052,10 +1083,77 @@ func (r *c20Reader) finish(o *c20Obs, target string) {
 		if h == after || (r.before != "" && h == r.before) {
 			continue
 		}
-		if r.before == "" {
-			continue // the file was too large to be hashed beforehand: a small read cannot be classified
-		}
 		o.ReaderOdd++
 		o.ReaderOddWhat = fmt.Sprintf("a %d-byte file that is neither the file before nor the file after the store", n)
 	}
+}
+
+// ---- concurrent stores -----------------------------------------------------------------------------
+
+func c20ChildConcurrent(a *assets, c c20Case, dir, obsDir string, say func(string)) {
+	n := len(c.Conc)
+	confs := make([]*pb.ClientConf, n)
+	for j, ac := range c.Conc {
+		confs[j] = c20Conf(j, ac.KB, false)
+	}
+	o := c20ConcObs{Errs: make([]string, n), StartNs: make([]int64, n), EndNs: make([]int64, n)}
+	say("R")
+	var wg sync.WaitGroup
+	stopRm := make(chan struct{})
+	rmDone := make(chan struct{})
+	wantRm := false
+	for _, ac := range c.Conc {
+		wantRm = wantRm || ac.RmTemp
+	}
+	go func() {
+		defer close(rmDone)
+		if !wantRm {
+			return
+		}
+		for {
+			select {
+			case <-stopRm:
+				return
+			default:
+			}
+			ents, _ := os.ReadDir(dir)
+			for _, e := range ents {
+				if e.Name() == c20File {
+					continue
+				}
+				if fi, err := e.Info(); err == nil && fi.Size() >= 512<<10 {
+					if os.Remove(filepath.Join(dir, e.Name())) == nil {
+						o.Removed++
+					}
+				}
+			}
+			time.Sleep(50 * time.Microsecond)
+		}
+	}()
+	t0 := time.Now()
+	for j := range c.Conc {
+		wg.Add(1)
+		go func(j int) {
+			defer wg.Done()
+			if d := time.Duration(c.Conc[j].DelayUs) * time.Microsecond; d > 0 {
+				time.Sleep(d - time.Since(t0))
+			}
+			o.StartNs[j] = int64(time.Since(t0))
+			if err := a.SetClientConf(confs[j]); err != nil {
+				o.Errs[j] = err.Error()
+			}
+			o.EndNs[j] = int64(time.Since(t0))
+		}(j)
+	}
+	wg.Wait()
+	close(stopRm)
+	<-rmDone
+	o.Disk = c20DiskState(filepath.Join(dir, c20File), obsDir)
+	if mb, err := c20Partial.Marshal(a.GetClientConfPtr()); err == nil {
+		o.Mem = c20Blob(obsDir, mb)
+	} else {
+		o.Harness = "snapshot of in-memory configuration: " + err.Error()
+	}
+	jb, _ := json.Marshal(o)
+	say("C " + string(jb))
 }
